@@ -189,7 +189,8 @@ func (em *emitter) builtinCallName(expr ast.Expression) string {
 // numOut reports the number of return parameters of call, if it is a function
 // call. If is not, returns 0 and false.
 func (em *emitter) numOut(call *ast.Call) (int, bool) {
-	if ti := em.ti(call.Func); ti != nil && ti.Type != nil {
+	// A conversion to a function type is not a function call.
+	if ti := em.ti(call.Func); ti != nil && ti.Type != nil && !ti.IsType() {
 		if ti.Type.Kind() == reflect.Func {
 			return ti.Type.NumOut(), true
 		}
